@@ -21,7 +21,7 @@ import (
 func init() { register("C13", checkC13) }
 
 func checkC13(c *core.Ctx) {
-	c.Explainf("C13 (decided clause: exhaustiveness of the hand-enumerated checks; that each check's predicate is right is behaviour and NOT decided). R1 facet x kind matrix over File.Validate: for each of enum, struct, message, union the loop over that kind must perform every applicable check — primitive-name clash (lookup in primitiveTypes), duplicate definition (customTypes), duplicate member names (a per-definition name set), duplicate enum values (signed and unsigned sets), duplicate opcode (allOpCodes), and a walk reaching typeDefined for every field-bearing kind incl. the struct/message branches of a union; union branches are checked like definitions of their own. R1c: every name stored into the set typeDefined consults is traced to the collection it ranges over, which must be one of the four definition lists, the union branches or the primitive table (a const or option name in that set would pass as a type). R2: message and union indices are parsed with ParseUint(_, 10, 8), tested against the existing map before insertion, and a zero message index is rejected. R3: the enum option parser's bit size flows from decodeIntegerType, and the flag-expression evaluators do not narrow a 64-bit parse result without a range test. R4: readConst's type switch covers every primitive with an arm that tests the token kind, and has an erroring default. R5: the struct-recursion fixpoint only ever adds `true` entries (monotone, hence terminating) and propagates only through struct names; a search with a visited set (R5b) keeps that set to one search. R6: no counting loop over a map keyed by a one-byte index stops before index 255 or fails to stop (positive control: fixtures/indexspace). R7: the function that fills the per-struct usage sets of the self-containment analysis ranges over all fields and skips none (a deprecated struct field is still part of the type). R8: every function on the enum-value path that is handed the enum's bit size passes it to each strconv.ParseInt/ParseUint it calls itself.")
+	c.Explainf("C13 (decided clause: exhaustiveness of the hand-enumerated checks; that each check's predicate is right is behaviour and NOT decided). R1 facet x kind matrix over File.Validate: for each of enum, struct, message, union the loop over that kind must perform every applicable check — primitive-name clash (lookup in primitiveTypes), duplicate definition (customTypes), duplicate member names (a per-definition name set), duplicate enum values (signed and unsigned sets), duplicate opcode (allOpCodes), and a walk reaching typeDefined for every field-bearing kind incl. the struct/message branches of a union; union branches are checked like definitions of their own. R1c: every name stored into the set typeDefined consults is traced to the collection it ranges over, which must be one of the four definition lists, the union branches or the primitive table (a const or option name in that set would pass as a type). R2: message and union indices are parsed with ParseUint(_, 10, 8), tested against the existing map before insertion, and a zero message index is rejected. R3: the enum option parser's bit size flows from decodeIntegerType, and the flag-expression evaluators do not narrow a 64-bit parse result without a range test. R4: readConst's type switch covers every primitive with an arm that tests the token kind, and has an erroring default. R5: the struct-recursion fixpoint only ever adds `true` entries (monotone, hence terminating) and propagates only through struct names; a search with a visited set (R5b) keeps that set to one search. R6: no counting loop over a map keyed by a one-byte index stops before index 255 or fails to stop (positive control: fixtures/indexspace). R7: the function that fills the per-struct usage sets of the self-containment analysis ranges over all fields and skips none (a deprecated struct field is still part of the type). R9: every strconv parse of a const's numeric literal is made at the width of the const's type and its failure is returned as an error (on the pinned tree it is not: three known findings). R8: every function on the enum-value path that is handed the enum's bit size passes it to each strconv.ParseInt/ParseUint it calls itself.")
 	p := loadRepo(c)
 	if p == nil {
 		return
@@ -321,6 +321,7 @@ func checkC13(c *core.Ctx) {
 	indexSpaceComplete(c, p)
 	usageLeavesNoFieldOut(c, p, fd)
 	bitSizeReachesParses(c, p)
+	constLiteralsFit(c, p)
 
 	// ---- R2 index rules
 	for _, cfgx := range []struct {
@@ -1661,4 +1662,114 @@ func bitSizeReachesParses(c *core.Ctx, p *load.Prog) {
 	}
 	c.Count("enum_value_parses_with_bit_size", n)
 	c.Floor("enum_value_parses_with_bit_size", 1)
+}
+
+// constLiteralsFit: R9. A numeric const literal that does not fit its type is
+// rejected: in readConst (and the helpers it calls) every strconv parse of a
+// const's literal is made at the width of the const's type (its bitSize
+// argument is not the constant 64 — unless the type is 64 bits wide), and a
+// failed parse ends in a return of a non-nil error, not in a warning.
+// One obligation per numeric class (unsigned, signed, float).
+func constLiteralsFit(c *core.Ctx, p *load.Prog) {
+	pkg := p.Bebop()
+	info := pkg.TypesInfo
+	f := p.FuncDecl(pkg, "readConst")
+	if f == nil {
+		return // R4 already says so
+	}
+	type verdict struct {
+		sized, returned bool
+		pos            token.Pos
+		seen           bool
+	}
+	classes := map[string]*verdict{"unsigned": {}, "signed": {}, "float": {}}
+	for _, fd := range declClosure(p, pkg, f, 2) {
+		// error variables of parses, per class
+		ast.Inspect(fd.Body, func(n ast.Node) bool {
+			as, ok := n.(*ast.AssignStmt)
+			if !ok || len(as.Rhs) != 1 || len(as.Lhs) != 2 {
+				return true
+			}
+			call, ok := as.Rhs[0].(*ast.CallExpr)
+			if !ok {
+				return true
+			}
+			cal := load.Callee(info, call)
+			if cal == nil || cal.Pkg() == nil || cal.Pkg().Path() != "strconv" {
+				return true
+			}
+			class := map[string]string{"ParseUint": "unsigned", "ParseInt": "signed", "ParseFloat": "float"}[cal.Name()]
+			if class == "" {
+				return true
+			}
+			// an integer literal given to a float const is parsed with ParseInt:
+			// that is the float class, told by the enclosing clause
+			if class == "signed" && enclosedByFloatArm(info, fd, call) {
+				class = "float"
+			}
+			v := classes[class]
+			if !v.seen {
+				v.seen, v.sized, v.returned, v.pos = true, true, true, call.Pos()
+			}
+			size := call.Args[len(call.Args)-1]
+			if k, isC := constInt(info, size); isC && k == 64 {
+				v.sized = false
+			}
+			// what happens to the error: the next `if err != nil` over it
+			errID, _ := as.Lhs[1].(*ast.Ident)
+			if errID == nil || errID.Name == "_" {
+				v.returned = false
+				return true
+			}
+			eo := info.ObjectOf(errID)
+			handled := false
+			ast.Inspect(fd.Body, func(m ast.Node) bool {
+				ifs, ok := m.(*ast.IfStmt)
+				if !ok || ifs.Pos() < as.End() || handled {
+					return true
+				}
+				if v2, isErr := errNilTest(info, ifs.Cond); isErr && v2 == eo {
+					handled = true
+					if !endsInReturn(ifs.Body) || lastResultIsNil(ifs.Body.List[len(ifs.Body.List)-1].(*ast.ReturnStmt)) {
+						v.returned = false
+					}
+				}
+				return true
+			})
+			if !handled {
+				// returned directly with the value?
+				v.returned = false
+			}
+			return true
+		})
+	}
+	for _, class := range []string{"unsigned", "signed", "float"} {
+		v := classes[class]
+		if !v.seen {
+			c.Undecide("readConst: no strconv parse of a %s const literal found", class)
+			continue
+		}
+		c.Check("R9", "readConst rejects a "+class+" literal that does not fit the const's type", p.Pos(v.pos), v.sized && v.returned,
+			fmt.Sprintf("parsed at the width of the type: %v; a failed parse is returned as an error: %v — `const uint8 x = 300;`, `const uint32 y = -1;`, `const float32 f = 1e400;` are accepted (at most with a warning) and the generated constant cannot be used at its declared type", v.sized, v.returned))
+	}
+}
+
+// enclosedByFloatArm: the call sits in a clause whose condition (or an
+// enclosing clause's) calls the float predicate / mentions a float type name.
+func enclosedByFloatArm(info *types.Info, fd *ast.FuncDecl, call *ast.CallExpr) bool {
+	in := false
+	ast.Inspect(fd.Body, func(n ast.Node) bool {
+		cc, ok := n.(*ast.CaseClause)
+		if !ok || !(cc.Pos() <= call.Pos() && call.End() <= cc.End()) {
+			return true
+		}
+		for _, e := range cc.List {
+			s := wire.Canon(e)
+			if strings.Contains(strings.ToLower(s), "float") {
+				in = true
+			}
+		}
+		return true
+	})
+	return in
 }
